@@ -2,6 +2,7 @@ package main
 
 import (
 	"fmt"
+	"go/types"
 	"strings"
 
 	"golang.org/x/tools/go/ssa"
@@ -248,3 +249,318 @@ func loopEarlyExits(b *ssa.BasicBlock) []string {
 }
 
 func blockReachesOrSame(a, b *ssa.BasicBlock) bool { return a == b || blockReaches(a, b) }
+
+// loopAbandoned lists the ways the innermost loop around b can be left before its
+// collection is exhausted, other than by returning an error: a break (an exit edge
+// to a block that is not an error return). An entry of the list processed after
+// that point is silently skipped.
+func loopAbandoned(b *ssa.BasicBlock) []string {
+	var header *ssa.BasicBlock
+	for d := b; d != nil; d = d.Idom() {
+		isHeader := false
+		for _, pr := range d.Preds {
+			if d.Dominates(pr) && blockReachesOrSame(b, pr) {
+				isHeader = true
+			}
+		}
+		if isHeader {
+			header = d
+			break
+		}
+	}
+	if header == nil {
+		return []string{"no loop"}
+	}
+	inLoop := func(x *ssa.BasicBlock) bool {
+		return header.Dominates(x) && (x == header || blockReaches(x, header))
+	}
+	errorReturn := func(x *ssa.BasicBlock) bool {
+		// x (possibly through jumps) ends in a return whose last result is not the nil constant
+		for d := 0; d < 4 && x != nil; d++ {
+			switch last := x.Instrs[len(x.Instrs)-1].(type) {
+			case *ssa.Return:
+				if len(last.Results) == 0 {
+					return false
+				}
+				return !isNilConst(last.Results[len(last.Results)-1])
+			case *ssa.Jump:
+				x = x.Succs[0]
+			default:
+				// rundefers / stores of spilled results precede the return in the same block; anything else is not a plain return
+				return false
+			}
+		}
+		return false
+	}
+	var res []string
+	for _, x := range b.Parent().Blocks {
+		if x == header || !inLoop(x) {
+			continue
+		}
+		for _, sx := range x.Succs {
+			if inLoop(sx) || errorReturn(sx) {
+				continue
+			}
+			res = append(res, fmt.Sprintf("block %d (%s) leaves the loop without reporting an error", x.Index, x.Comment))
+		}
+	}
+	return res
+}
+
+// sharedCellLint: a local variable whose address is stored into objects
+// (x.LastStateChange = &v, a composite literal field &v) must be a fresh cell
+// per object: it is assigned once, and not inside a loop that the variable is
+// declared outside of. Otherwise all objects share one cell and read the value
+// assigned last.
+func sharedCellLint(p *Prog, r *Report, rule string, shorts ...string) {
+	nCells := 0
+	for _, fn := range p.RepoFns(shorts...) {
+		if isWrapper(fn) {
+			continue
+		}
+		for _, b := range fn.Blocks {
+			for _, ins := range b.Instrs {
+				al, ok := ins.(*ssa.Alloc)
+				if !ok || !al.Heap || al.Referrers() == nil {
+					continue
+				}
+				if _, isStruct := derefType(al.Type()).Underlying().(*types.Struct); isStruct {
+					continue // objects, not cells: their fields are written through field addresses
+				}
+				var escapes, writes []*ssa.Store
+				for _, ref := range *al.Referrers() {
+					st, isSt := ref.(*ssa.Store)
+					if !isSt {
+						continue
+					}
+					if st.Val == ssa.Value(al) {
+						switch st.Addr.(type) {
+						case *ssa.FieldAddr, *ssa.IndexAddr:
+							escapes = append(escapes, st)
+						}
+					} else if st.Addr == ssa.Value(al) {
+						writes = append(writes, st)
+					}
+				}
+				if len(escapes) == 0 {
+					continue
+				}
+				nCells++
+				bad := ""
+				for _, e := range escapes {
+					for _, w := range writes {
+						after := false
+						if e.Block() == w.Block() {
+							for _, x := range e.Block().Instrs {
+								if x == ssa.Instruction(e) {
+									after = true
+								} else if x == ssa.Instruction(w) && after {
+									bad = "assigned again after its address was stored"
+								}
+							}
+							if cyclic(e.Block()) && !cyclic(al.Block()) {
+								bad = "assigned again in the next iteration of the loop that stores its address"
+							}
+						} else if blockReaches(e.Block(), w.Block()) {
+							bad = "assigned again after its address was stored"
+						}
+					}
+				}
+				if bad != "" {
+					r.Fail(rule, fmt.Sprintf("fn:%s|cell:%s", p.StableName(fn), al.Comment), p.InstrPos(escapes[0]), fmt.Sprintf("the address of local variable %s is stored into an object, and the variable is %s: every object that received the address reads the value assigned last", al.Comment, bad))
+				}
+			}
+		}
+	}
+	r.Stat(rule+".local cells whose address is stored into an object", nCells)
+	if nCells > 0 {
+		r.Pass(rule, "cells", "", fmt.Sprintf("%d local cells whose address is stored into an object; none is assigned again after its address was handed to an object", nCells))
+	}
+	r.Floor(rule, "local cells whose address is stored into an object", nCells, 3)
+}
+
+// deletePrecheckRule: a binding delete is tied to the sending peer — the pre-check
+// of RemoveBinding asks HasLocalFeatureRemoteBinding about the address of the
+// feature resolved on the local device and the address of the feature resolved on
+// the requesting device (not about address data copied from the request, whose
+// device part the look-up ignores).
+func deletePrecheckRule(p *Prog, r *Report, rule string) {
+	bmi := p.LookupIface("api", "BindingManagerInterface")
+	if bmi == nil {
+		r.Undecided(rule, "anchor:api.BindingManagerInterface", "", "interface not found")
+		return
+	}
+	n := 0
+	for _, fn := range p.ImplsOf(bmi, "RemoveBinding") {
+		if isWrapper(fn) || len(fn.Params) < 3 {
+			continue
+		}
+		p.InScope(fn, func() {
+			forEachCall(fn, func(site ssa.CallInstruction) {
+				c, ok := site.(*ssa.Call)
+				if !ok || !calleeIsIfaceMethod(&c.Call, bmi, "HasLocalFeatureRemoteBinding") && (c.Call.StaticCallee() == nil || originName(c.Call.StaticCallee()) != "HasLocalFeatureRemoteBinding") {
+					return
+				}
+				n++
+				args := callArgs(&c.Call)
+				if len(args) < 2 {
+					return
+				}
+				local, remote := Path(args[len(args)-2]), Path(args[len(args)-1])
+				peer := "param:" + fn.Params[2].Name() + "."
+				okLocal := strings.HasSuffix(local, ".Address()") && strings.Contains(local, "FeatureByAddress(") && !strings.HasPrefix(local, peer)
+				okRemote := strings.HasSuffix(remote, ".Address()") && strings.HasPrefix(remote, peer) && strings.Contains(remote, "FeatureByAddress(")
+				r.Check(rule, FnName(fn)+"|precheck-args", okLocal && okRemote, p.InstrPos(c), fmt.Sprintf("the pre-check is asked about (%s, %s); required: the address of the feature resolved on the local device and the address of the feature resolved on the requesting device", local, remote))
+			})
+		})
+	}
+	r.Floor(rule, "binding pre-checks in RemoveBinding", n, 1)
+}
+
+// fieldAddressEscapes: the address of a field of a long-lived object (a field of
+// the receiver or of an object reached from it) is never returned or stored into
+// another object: whoever holds such a pointer reads — without any lock —
+// whatever is assigned to the field later, so a value handed out that way is not
+// a snapshot. Addresses passed to calls (locks, atomics) are not escapes.
+// Returns the number of field addresses examined.
+func fieldAddressEscapes(p *Prog, r *Report, rule string, only func(fn *ssa.Function) bool, shorts ...string) {
+	n, nBad := 0, 0
+	for _, fn := range p.RepoFns(shorts...) {
+		if isWrapper(fn) || (only != nil && !only(fn)) {
+			continue
+		}
+		seenKey := map[string]bool{}
+		for _, b := range fn.Blocks {
+			for _, ins := range b.Instrs {
+				fa, ok := ins.(*ssa.FieldAddr)
+				if !ok || fa.Referrers() == nil {
+					continue
+				}
+				// rooted at a parameter (receiver) or a value loaded from the heap, not at a local object under construction
+				root := ssa.Value(fa)
+				for d := 0; d < 8; d++ {
+					if f2, isF := root.(*ssa.FieldAddr); isF {
+						root = f2.X
+						continue
+					}
+					break
+				}
+				if al, isAl := root.(*ssa.Alloc); isAl {
+					if _, isStruct := derefType(al.Type()).Underlying().(*types.Struct); isStruct {
+						continue // a struct being built in this function
+					}
+				}
+				if _, isPar := root.(*ssa.Parameter); !isPar {
+					if _, isLoad := root.(*ssa.UnOp); !isLoad {
+						continue
+					}
+				}
+				n++
+				how := ""
+				var walk func(v ssa.Value, d int)
+				walk = func(v ssa.Value, d int) {
+					if d > 4 || v.Referrers() == nil || how != "" {
+						return
+					}
+					for _, ref := range *v.Referrers() {
+						switch x := ref.(type) {
+						case *ssa.Return:
+							how = "returned"
+						case *ssa.Store:
+							if x.Val == v {
+								if _, isLocal := x.Addr.(*ssa.Alloc); isLocal {
+									// spilled result cell or a local pointer variable: follow its loads
+									if al := x.Addr.(*ssa.Alloc); al.Referrers() != nil {
+										for _, r2 := range *al.Referrers() {
+											if ld, isLd := r2.(*ssa.UnOp); isLd {
+												walk(ld, d+1)
+											}
+										}
+									}
+									continue
+								}
+								how = "stored into " + Path(x.Addr)
+							}
+						case *ssa.MakeInterface:
+							walk(x, d+1)
+						case *ssa.ChangeType:
+							walk(x, d+1)
+						case *ssa.Phi:
+							walk(x, d+1)
+						}
+					}
+				}
+				walk(fa, 0)
+				if how == "" {
+					continue
+				}
+				fld := fieldOfAddr(fa)
+				if !fieldMutatedAfterConstruction(p, fld) {
+					continue // set once while the object is built: a pointer to it reads a constant
+				}
+				key := fmt.Sprintf("fn:%s|field:%s", p.StableName(fn), fld.Name())
+				if seenKey[key] {
+					continue
+				}
+				seenKey[key] = true
+				nBad++
+				r.Fail(rule, key, p.InstrPos(fa), fmt.Sprintf("the address of field %s of a long-lived object is %s: the holder of that pointer reads, without a lock, whatever is assigned to the field later", fld.Name(), how))
+			}
+		}
+	}
+	r.Stat(rule+".field addresses of long-lived objects examined", n)
+	if nBad == 0 {
+		r.Pass(rule, "field-addresses", "", fmt.Sprintf("%d field addresses of long-lived objects: none of a field that is assigned after construction is returned or stored into another object", n))
+	}
+	r.Floor(rule, "field addresses of long-lived objects examined", n, 20)
+}
+
+var mutatedFieldMemo map[*types.Var]bool
+
+// fieldMutatedAfterConstruction: some function writes the field of an object it
+// did not create itself (a store through a parameter / loaded pointer, or an
+// atomic read-modify-write on the field's address).
+func fieldMutatedAfterConstruction(p *Prog, fld *types.Var) bool {
+	if mutatedFieldMemo == nil {
+		mutatedFieldMemo = map[*types.Var]bool{}
+		for _, fn := range p.RepoFns("spine", "model", "util") {
+			if isWrapper(fn) {
+				continue
+			}
+			for _, b := range fn.Blocks {
+				for _, ins := range b.Instrs {
+					fa, ok := ins.(*ssa.FieldAddr)
+					if !ok || fa.Referrers() == nil || fieldOfAddr(fa) == nil {
+						continue
+					}
+					root := ssa.Value(fa)
+					for d := 0; d < 8; d++ {
+						if f2, isF := root.(*ssa.FieldAddr); isF {
+							root = f2.X
+							continue
+						}
+						break
+					}
+					if al, isAl := root.(*ssa.Alloc); isAl {
+						if _, isStruct := derefType(al.Type()).Underlying().(*types.Struct); isStruct {
+							continue
+						}
+					}
+					for _, ref := range *fa.Referrers() {
+						switch x := ref.(type) {
+						case *ssa.Store:
+							if x.Addr == ssa.Value(fa) {
+								mutatedFieldMemo[fieldOfAddr(fa)] = true
+							}
+						case *ssa.Call:
+							if c := x.Call.StaticCallee(); c != nil && fnPkgPath(c) == "sync/atomic" && !strings.HasPrefix(c.Name(), "Load") {
+								mutatedFieldMemo[fieldOfAddr(fa)] = true
+							}
+						}
+					}
+				}
+			}
+		}
+	}
+	return mutatedFieldMemo[fld]
+}
